@@ -580,7 +580,19 @@ func (c *checker) oneConn(i int, be *rig.Backend, px *rig.Proxy, custom bool) {
 	} else {
 		h1 := rig.NewH1(conn)
 		for k := range tags {
-			if _, _, err := h1.Do(rig.SimpleGet("front.example", "/p", tags[k]), "GET", 20*time.Second); err != nil {
+			// a third of the HTTP/1.1 requests nominate the fingerprint header as hop-by-hop in their Connection
+			// header (with or without a value of their own): whatever the proxy removes on behalf of the client,
+			// its own header must arrive (after seeded change C01-K)
+			var extra []string
+			switch (i + k) % 6 {
+			case 1:
+				extra = []string{"Connection: keep-alive, " + c.name}
+				run.Add("e2e_h1_requests_naming_the_header_in_connection", 1)
+			case 4:
+				extra = []string{"Connection: " + strings.ToLower(c.name) + ", X-Whatever", c.name + ": from-the-client", "X-Whatever: 1"}
+				run.Add("e2e_h1_requests_naming_the_header_in_connection", 1)
+			}
+			if _, _, err := h1.Do(rig.SimpleGet("front.example", "/p", tags[k], extra...), "GET", 20*time.Second); err != nil {
 				break
 			}
 		}
